@@ -19,6 +19,7 @@
   seen set: both are outside the statement ("binds at least one key"), modelled, not claimed.
 -/
 import EqlModel.Lemmas.CacheLemmas
+import EqlModel.Gen.Tables
 
 namespace Eql.Cache
 variable {A O : Type} [DecidableEq A]
@@ -222,5 +223,22 @@ theorem c20_wildcard_witness :
     spec [1, 2] [.insert [(1, 5), (2, 6)] 0, .insert [(2, 6)] (1 : Nat)] [.all, .val 6] = some 1 ∧
     Uniform c.trie = false := by
   decide
+
+/-! ### Caches without keys (repair R34) -/
+
+/-- With at least one key the repaired check IS the check all theorems above speak of ... -/
+theorem checkK_eq_check (c : Cache A O) (a : Asg A) (h : c.keys ≠ []) : c.checkK a = c.check a := by
+  unfold Cache.checkK
+  cases hk : c.keys with
+  | nil => exact absurd hk h
+  | cons k ks => simp
+
+/-- ... and a cache without keys (the result cache of a comparison between constants) never claims coverage and is not
+    changed by being asked: the operator is simply evaluated. -/
+theorem c20_keyless_never_covers (c : Cache A O) (a : Asg A) (h : c.keys = []) : c.checkK a = (false, c) := by
+  unfold Cache.checkK; simp [h]
+
+/-- Tie to the source (regenerated): `IndexedCache.check` begins with `if not self.keys: return False`. -/
+theorem c20_keyless_guard_tied : Gen.cacheCheckGuardsKeyless = true := by decide
 
 end Eql.Cache
